@@ -325,6 +325,42 @@ class AnyU:
         self.a, self.b = a, b
 
 
+class Copying:
+    """A constructor that USES its arguments instead of just storing them:
+    they must be complete when it runs (constructors run bottom-up)."""
+    def __init__(self, items: List[int], sub: Sub,
+                 d: Optional[Dict[str, Sub]] = None) -> None:
+        T(self, locals())
+        self.items = list(items)
+        self.n = len(items)
+        self.sx = sub.x
+        self.keys = sorted(d) if d is not None else None
+        self.dx = [v.x for v in d.values()] if d is not None else None
+
+
+class V1:
+    """Discriminated by the VALUE of an int attribute."""
+    def __init__(self, version: int, name: str) -> None:
+        T(self, locals())
+        self.version, self.name = version, name
+
+    @classmethod
+    def _yatiml_recognize(cls, node: yatiml.UnknownNode) -> None:
+        node.require_attribute_value('version', 1)
+
+
+class V2:
+    def __init__(self, version: int, title: str, factor: float) -> None:
+        T(self, locals())
+        self.version, self.title, self.factor = version, title, factor
+
+    @classmethod
+    def _yatiml_recognize(cls, node: yatiml.UnknownNode) -> None:
+        node.require_attribute_value_not('version', 1)
+        node.require_attribute('title', str)
+        node.require_attribute_value_not('factor', 0.0)
+
+
 class Holder:
     def __init__(self, s: Sub, ss: Optional[List[Sub]] = None,
                  u: Union[Sub, int, None] = None) -> None:
